@@ -837,6 +837,46 @@ impl<'a> Client<'a> {
                     )
                 });
             }
+            Op::ParLookup(qs) => {
+                // readers on several threads at once; each answer must be the sequential one
+                rt::probe::hit("concurrent_lookups");
+                // rt::thread::scope is the harness' own implementation (shuttle 0.9.3's wakes a main
+                // task that blocks inside the scope spuriously); using it here keeps it exercised
+                let store = &self.store;
+                let results: Vec<Ret> = rt::thread::scope(|s| {
+                    let hs: Vec<_> = qs
+                        .iter()
+                        .skip(1)
+                        .map(|q| {
+                            let q = q.clone();
+                            s.spawn(move || statuses(store.lookup(q)))
+                        })
+                        .collect();
+                    let mut v = vec![statuses(store.lookup(qs[0].clone()))];
+                    for h in hs {
+                        v.push(h.join().unwrap());
+                    }
+                    v
+                });
+                for (q, r) in qs.iter().zip(results.iter()) {
+                    let q = q.clone();
+                    self.step_model("lookup", r, &|_| true, &move |c, _| {
+                        Ret::Statuses(
+                            c.tracks
+                                .values()
+                                .filter(|t| match &q {
+                                    SimLookup::All => true,
+                                    SimLookup::GroupIs(g) => t.group == *g,
+                                    SimLookup::CounterAtLeast(n) => t.counter >= *n,
+                                    SimLookup::HistoryLonger(n) => t.history.len() > *n,
+                                    SimLookup::HasClass(k) => t.obs.contains_key(k),
+                                })
+                                .map(|t| (t.id, t.status))
+                                .collect(),
+                        )
+                    });
+                }
+            }
             Op::FindUsable => {
                 let r = statuses(self.store.find_usable());
                 self.step_model(kind, &r, &|_| true, &|c, _| {
